@@ -3,6 +3,7 @@ package checks
 import (
 	"fmt"
 	"math"
+	"strings"
 
 	"verifharness/cat"
 	"verifharness/core"
@@ -183,8 +184,8 @@ func c18StratUnit(c *core.Ctx, e *cat.Strat, cfg []float64) {
 
 func init() {
 	core.Register(&core.Check{
-		ID:   "C18",
-		Rule: "input tries (positive alphabets / bars with positive range and volume, depth w+2 quick / w+4 thorough) for every indicator with catalogued homogeneity degrees and every scale-free strategy x configuration; every node is executed on the original series and on the series with all prices multiplied by 2^-20, 2^-10, 2^-3, 2^4, 2^10 and (separately) all volumes by 2^-2, 2^5; oracle: indicator outputs equal original x factor^degree bit-for-bit, strategy actions identical; states = trie nodes, non-trivial = nodes longer than the warm-up",
+		ID:     "C18",
+		Rule:   "input tries (positive alphabets / bars with positive range and volume, depth w+2 quick / w+4 thorough) for every indicator with catalogued homogeneity degrees, every scale-free strategy x configuration, every decorator and a quarter (thorough: all) of the compounds over scale-free strategies; every node is executed on the original series and on the series with all prices multiplied by 2^-20, 2^-10, 2^-3, 2^4, 2^10 and (separately) all volumes by 2^-2, 2^5; oracle: indicator outputs equal original x factor^degree bit-for-bit, strategy actions identical; states = trie nodes, non-trivial = nodes longer than the warm-up",
 		Assume: []string{"scale factors are powers of two (IEEE arithmetic is exactly covariant, so no tolerance); magnitudes stay far from under/overflow", "homogeneity degrees per output come from the catalogue (documented formulas)"},
 		Units: func(tier string) []core.Unit {
 			var us []core.Unit
@@ -201,6 +202,14 @@ func init() {
 					cfg := cfg
 					us = append(us, core.Unit{Key: e.Name + fmtCfg(cfg), Cost: 2 * (2 + e.Warm(cfg)), Run: func(c *core.Ctx) { c18StratUnit(c, e, cfg) }})
 				}
+			}
+			// decorators (the stop-loss keeps a price level of its own) and compounds over unit-independent strategies
+			for i, e := range wrapperEntries() {
+				e := e
+				if !e.ScaleFree || (tier != "thorough" && !strings.HasPrefix(e.Name, "decorator.") && i%4 != 0) {
+					continue
+				}
+				us = append(us, core.Unit{Key: e.Name, Cost: 2 * (2 + e.Warm(nil)), Run: func(c *core.Ctx) { c18StratUnit(c, e, []float64{}) }})
 			}
 			return us
 		},
